@@ -275,7 +275,7 @@ def check(ctx, rep):
                 if len(stores) == 1:
                     lastf.add(stores[0].d["target"][2])
                 rep.ob("R-LASTGOOD", "%s: a returned value becomes the limit" % root.qualname, ok, "the callable's value must be stored (stores: %d) and used as the limit (used: %s)" % (len(stores), [fmt(l) for l in lims]), where_of(u.fn, u.node), trace_of(p, u.seq))
-    rep.require(kinds == {"raised", "returned"}, "count callable: expected a raising and a returning path")
+    rep.ob("R-LASTGOOD", "the count callable is evaluated on the worker's and on submit's paths, with its exception contained", kinds == {"raised", "returned"}, "paths found: %s (the limit must come from a fresh evaluation of the count callable, whose failure is contained)" % sorted(kinds), where_of(subm))
     rep.ob("R-LASTGOOD", "one field keeps the last good limit", len(lastf) == 1, "fields: %s" % sorted(lastf), where_of(subm))
 
     # ---------------------------------------------------------------- blocking mode: nullable limit
